@@ -17,7 +17,7 @@ import shutil
 
 import vlib
 
-PROPS = ['Rangers.Props.C17', 'Rangers.Props.C17B', 'Rangers.Props.C17C']
+PROPS = ['Rangers.Props.C17', 'Rangers.Props.C17B', 'Rangers.Props.C17C', 'Rangers.Props.C17D', 'Rangers.Props.C17E']
 DRIVERS = ['C17']
 META = dict(
     level='proof',
@@ -66,6 +66,14 @@ def correspond(ctx):
     n = 1200 if ctx.thorough() else 60
     c = vlib.correspond(ctx, 'c17', 'C17', ['scripts=%d' % n], canon=canon, timeout=2400, nontrivial=nontrivial)
     c['name'] = 'pool-scripts'
+    # TxPool.Clear() re-binds the pool's store for the rest of the process: a process of its own
+    c2 = vlib.correspond(ctx, 'c17', 'C17', ['clear=1'], canon=canon, timeout=600, nontrivial=nontrivial)
+    c2['name'] = 'pool-clear'
+    # the pool driven by the real block chain (C05 hooks): reorg histories through AddBlockOnChain
+    c3 = vlib.correspond(ctx, 'c17', 'C17', ['mode=chain', 'histories=%d' % (25 if ctx.thorough() else 4)], canon=canon,
+                         timeout=1200, nontrivial=lambda o, x: not o.startswith('#'))
+    c3['name'] = 'chain-reorg'
+    return [c, c2, c3]
     # a panic of the real pool on a well-formed history is a property-level fact by itself;
     # PANIC answers the model also gives (Less on equal hashes called directly, receipts without
     # transaction in the malformed stream) are part of the modelled behaviour.
